@@ -879,7 +879,12 @@ def generate(unit, canary=False, expand=True):
         # types this unit leaves opaque, so it is carried as a comment)
         head = toks[item.start:item.body_open + 1]
         txt = ' '.join(t.text for t in cut).replace('*/', '* /')
-        out_chunks[slot] = render(head) + ' /* hoisted text: ' + txt + ' */ unimplemented!() }'
+        body = toks[item.body_open + 1:item.end - 1]
+        if any(t.text == 'vx_keep_body' for t in body):
+            # a helper returning `impl Trait` needs a body of some implementing type for rustc (never executed, never verified)
+            out_chunks[slot] = render(head) + ' /* hoisted text: ' + txt + ' */' + render(body) + ' }'
+        else:
+            out_chunks[slot] = render(head) + ' /* hoisted text: ' + txt + ' */ unimplemented!() }'
     # line spans of the generated items
     cum = [0]
     for c in out_chunks:
